@@ -50,7 +50,7 @@ var alsoSink = map[string]bool{"ToBinary": true}
 
 type flowSummary struct {
 	sites  map[string]map[string]flabel // "Kind" -> distinct sink sites (call-site sensitive, one level) with their strongest label
-	sinks  map[string]flabel // "Kind" -> strongest label
+	sinks  map[string]flabel            // "Kind" -> strongest label
 	rets   map[int]flabel
 	outs   map[int]flabel    // flows into the object of another parameter
 	stores map[string]flabel // "T.F" field-based heap stores
